@@ -6,19 +6,22 @@ Open Scope string_scope.
 (* the answer computed without any cache *)
 Definition gen_spec (w : world) (p : proxy) (r : req) (rs : list sres) : list entry :=
   flat_map (fun sr => if wanted r sr
-                      then match build w (p_cluster p) sr with Some e => [e] | None => [] end
+                      then match build w (p_cluster p) (eff_fmt w p) sr with Some e => [e] | None => [] end
                       else []) rs.
 
-(* every cache entry is what [build] yields for some well-formed resource with that key *)
-Definition cache_inv (w : world) (c : cache) : Prop :=
+(* every cache entry is what [build] yields for some well-formed resource with that key, in some
+   key format f related to the hash component of the key by [ok] *)
+Definition cache_inv (ok : string -> N -> Prop) (w : world) (c : cache) : Prop :=
   forall k d e, In (k, (d, e)) c ->
-    exists sr h, k = cache_key sr h /\ wf_sres sr /\ no_slash h = true /\
-                 build w (sr_cluster sr) sr = Some e.
+    exists sr h f, k = cache_key sr h /\ wf_sres sr /\ no_slash h = true /\ ok h f /\
+                   build w (sr_cluster sr) f sr = Some e.
 
-Lemma cache_inv_nil w : cache_inv w [].
+Definition functional (ok : string -> N -> Prop) : Prop := forall h f f', ok h f -> ok h f' -> f = f'.
+
+Lemma cache_inv_nil (ok : string -> N -> Prop) w : cache_inv ok w [].
 Proof. intros k d e []. Qed.
 
-Lemma cache_inv_clear w ks c : cache_inv w c -> cache_inv w (cache_clear ks c).
+Lemma cache_inv_clear (ok : string -> N -> Prop) w ks c : cache_inv ok w c -> cache_inv ok w (cache_clear ks c).
 Proof.
   intros H k d e Hin. unfold cache_clear in Hin. apply filter_In in Hin. destruct Hin as [Hin _].
   eapply H; eauto.
@@ -32,40 +35,65 @@ Proof.
   - intros H. destruct (IH H) as [d Hd]. exists d. auto.
 Qed.
 
+(* the key format changes nothing but the format *)
+Lemma build_refmt w cl f f' sr e :
+  build w cl f sr = Some e -> exists e', build w cl f' sr = Some e' /\ erase e = erase e'.
+Proof.
+  unfold build. intros H.
+  destruct (sr_type sr).
+  - destruct (is_ca_name (sr_name sr)).
+    + destruct (get_ca_cert w cl (sr_name sr) (sr_ns sr)); inversion H; subst. eexists. split; reflexivity.
+    + destruct (get_cert_info w cl (sr_name sr) (sr_ns sr)); inversion H; subst. eexists. split; reflexivity.
+  - destruct (get_configmap_ca w (config_cluster w) (sr_name sr) (sr_ns sr)); inversion H; subst.
+    eexists. split; reflexivity.
+  - destruct (is_ca_name (sr_name sr)).
+    + destruct (get_ca_cert w (config_cluster w) (sr_name sr) (sr_ns sr)); inversion H; subst. eexists. split; reflexivity.
+    + destruct (get_cert_info w (config_cluster w) (sr_name sr) (sr_ns sr)); inversion H; subst. eexists. split; reflexivity.
+  - destruct (is_ca_name (sr_name sr)).
+    + destruct (get_ca_cert w cl (sr_name sr) (sr_ns sr)); inversion H; subst. eexists. split; reflexivity.
+    + destruct (get_cert_info w cl (sr_name sr) (sr_ns sr)); inversion H; subst. eexists. split; reflexivity.
+Qed.
+
 (* resources on which the proxy-cluster controller choice of [generate] is the resource's own cluster *)
 Definition good_sres (w : world) (pcl : string) (sr : sres) : Prop :=
-  wf_sres sr /\ build w pcl sr = build w (sr_cluster sr) sr.
+  wf_sres sr /\ forall f, build w pcl f sr = build w (sr_cluster sr) f sr.
 
-Lemma gen_loop_spec w p r rs :
-  no_slash (p_pkp p) = true ->
+Lemma gen_loop_spec (ok : string -> N -> Prop) w p r rs :
+  no_slash (p_pkp p) = true -> ok (p_pkp p) (eff_fmt w p) ->
   (forall sr, In sr rs -> good_sres w (p_cluster p) sr) ->
-  forall c, cache_inv w c ->
-    fst (gen_loop w p r rs c) = gen_spec w p r rs /\ cache_inv w (snd (gen_loop w p r rs c)).
+  forall c, cache_inv ok w c ->
+    map erase (fst (gen_loop w p r rs c)) = map erase (gen_spec w p r rs) /\
+    (functional ok -> fst (gen_loop w p r rs c) = gen_spec w p r rs) /\
+    cache_inv ok w (snd (gen_loop w p r rs c)).
 Proof.
-  intros Hh. induction rs as [|sr rest IH]; intros Hg c Hc; cbn [gen_loop gen_spec flat_map].
-  - split; [reflexivity|exact Hc].
+  intros Hh Hok. induction rs as [|sr rest IH]; intros Hg c Hc; cbn [gen_loop gen_spec flat_map].
+  - split; [reflexivity|]. split; [reflexivity|exact Hc].
   - assert (Hrest : forall s, In s rest -> good_sres w (p_cluster p) s) by (intros s Hs; apply Hg; right; exact Hs).
     destruct (Hg sr (or_introl eq_refl)) as [Wsr Bsr].
     destruct (wanted r sr); cbn [negb].
     2:{ apply IH; auto. }
     destruct (cache_get (cache_key sr (p_pkp p)) c) as [e|] eqn:G.
-    + (* hit: the entry is what build would give *)
+    + (* hit: the entry is what build would give, up to the key format *)
       destruct (cache_get_in _ _ _ G) as [d Hin].
-      destruct (Hc _ _ _ Hin) as (sr' & h' & Ek & W' & Hh' & B').
+      destruct (Hc _ _ _ Hin) as (sr' & h' & f' & Ek & W' & Hh' & Hok' & B').
       destruct (cache_key_inj sr sr' (p_pkp p) h' Wsr W' Hh Hh' Ek) as [<- <-].
-      rewrite Bsr, B'.
-      destruct (IH Hrest c Hc) as [E1 E2].
-      destruct (gen_loop w p r rest c) as [out c'] eqn:GL. cbn [fst snd] in *.
-      split; [rewrite E1; reflexivity|exact E2].
-    + destruct (build w (p_cluster p) sr) as [e|] eqn:B.
+      destruct (build_refmt w (sr_cluster sr) f' (eff_fmt w p) sr e B') as (e' & Be' & Er).
+      rewrite Bsr, Be'.
+      destruct (IH Hrest c Hc) as (E1 & E2 & E3).
+      destruct (gen_loop w p r rest c) as [out c'] eqn:GL. cbn [fst snd app map] in *.
+      split; [rewrite E1, Er; reflexivity|]. split; [|exact E3].
+      intros Hf. rewrite (E2 Hf). f_equal.
+      assert (f' = eff_fmt w p) by (eapply Hf; eauto). subst f'. congruence.
+    + destruct (build w (p_cluster p) (eff_fmt w p) sr) as [e|] eqn:B.
       * set (c1 := if req_stores r then (cache_key sr (p_pkp p), (related (sres_ckey sr), e)) :: c else c).
-        assert (Hc1 : cache_inv w c1).
+        assert (Hc1 : cache_inv ok w c1).
         { unfold c1. destruct (req_stores r); [|exact Hc].
           intros k d e0 [Heq|Hin]; [|eapply Hc; eauto].
-          inversion Heq; subst. exists sr, (p_pkp p). rewrite <- Bsr. auto. }
-        destruct (IH Hrest c1 Hc1) as [E1 E2].
-        destruct (gen_loop w p r rest c1) as [out c'] eqn:GL. cbn [fst snd] in *.
-        split; [rewrite E1; reflexivity|exact E2].
+          inversion Heq; subst. exists sr, (p_pkp p), (eff_fmt w p). rewrite <- Bsr. auto. }
+        destruct (IH Hrest c1 Hc1) as (E1 & E2 & E3).
+        destruct (gen_loop w p r rest c1) as [out c'] eqn:GL. cbn [fst snd app map] in *.
+        split; [rewrite E1; reflexivity|]. split; [|exact E3].
+        intros Hf. rewrite (E2 Hf). reflexivity.
       * apply IH; auto.
 Qed.
 
@@ -109,22 +137,24 @@ Proof.
   apply filter_In in Hin. destruct Hin as [Hin Hal].
   apply in_parse_resources in Hin. destruct Hin as [rn [_ Hp]].
   apply parse_resource_name_wf in Hp; auto. destruct Hp as (W & _ & T).
-  split; [exact W|]. unfold build. unfold allowed in Hal.
+  split; [exact W|]. intros f. unfold build. unfold allowed in Hal.
   destruct (sr_type sr); try reflexivity.
   - rewrite T. reflexivity.
   - discriminate.
 Qed.
 
-Lemma generate_spec_ok w c p names r :
-  wf_world w = true -> wf_proxy p = true -> cache_inv w c ->
-  fst (generate w c p names r) = generate_spec w p names r /\ cache_inv w (snd (generate w c p names r)).
+Lemma generate_spec_ok (ok : string -> N -> Prop) w c p names r :
+  wf_world w = true -> wf_proxy p = true -> ok (p_pkp p) (eff_fmt w p) -> cache_inv ok w c ->
+  map erase (fst (generate w c p names r)) = map erase (generate_spec w p names r) /\
+  (functional ok -> fst (generate w c p names r) = generate_spec w p names r) /\
+  cache_inv ok w (snd (generate w c p names r)).
 Proof.
-  intros Hw Hp Hc. unfold generate, generate_spec. unfold wf_proxy in Hp.
+  intros Hw Hp Hok Hc. unfold generate, generate_spec. unfold wf_proxy in Hp.
   apply andb_true_iff in Hp. destruct Hp as [Hh Hi].
-  destruct (verified p) as [i|]; [|split; [reflexivity|exact Hc]].
-  destruct (negb (needs_push r)); [split; [reflexivity|exact Hc]|].
-  destruct (known_cluster w (p_cluster p)) eqn:K1; cbn [negb]; [|split; [reflexivity|exact Hc]].
-  destruct (known_cluster w (config_cluster w)) eqn:K2; cbn [negb]; [|split; [reflexivity|exact Hc]].
+  destruct (verified p) as [i|]; [|split; [reflexivity|split; [reflexivity|exact Hc]]].
+  destruct (negb (needs_push r)); [split; [reflexivity|split; [reflexivity|exact Hc]]|].
+  destruct (known_cluster w (p_cluster p)) eqn:K1; cbn [negb]; [|split; [reflexivity|split; [reflexivity|exact Hc]]].
+  destruct (known_cluster w (config_cluster w)) eqn:K2; cbn [negb]; [|split; [reflexivity|split; [reflexivity|exact Hc]]].
   apply gen_loop_spec; auto.
   intros sr Hin. eapply authorized_resources_good; eauto using known_cluster_no_slash.
 Qed.
@@ -134,33 +164,72 @@ Qed.
 Definition gens (ops : list op) : list (proxy * list string * req) :=
   flat_map (fun o => match o with OGen p n r => [(p, n, r)] | _ => [] end) ops.
 
-Lemma run_pointwise w ops :
-  wf_world w = true -> forallb wf_op ops = true ->
-  forall c, cache_inv w c ->
-    run w c ops = map (fun g => match g with (p, n, r) => generate_spec w p n r end) (gens ops)
-    /\ cache_inv w (run_cache w c ops).
+Definition spec_of (w : world) (g : proxy * list string * req) : list entry :=
+  match g with (p, n, r) => generate_spec w p n r end.
+
+Definition ok_op (ok : string -> N -> Prop) (w : world) (o : op) : Prop :=
+  match o with OGen p _ _ => ok (p_pkp p) (eff_fmt w p) | _ => True end.
+
+Lemma run_pointwise (ok : string -> N -> Prop) w ops :
+  wf_world w = true -> forallb wf_op ops = true -> Forall (ok_op ok w) ops ->
+  forall c, cache_inv ok w c ->
+    map (map erase) (run w c ops) = map (map erase) (map (spec_of w) (gens ops)) /\
+    (functional ok -> run w c ops = map (spec_of w) (gens ops)) /\
+    cache_inv ok w (run_cache w c ops).
 Proof.
-  intros Hw. induction ops as [|o rest IH]; intros Hops c Hc.
-  - split; [reflexivity|exact Hc].
+  intros Hw. induction ops as [|o rest IH]; intros Hops Hok c Hc.
+  - split; [reflexivity|]. split; [reflexivity|exact Hc].
   - cbn [forallb] in Hops. apply andb_true_iff in Hops. destruct Hops as [Ho Hrest].
+    inversion Hok as [|? ? Hok1 Hokr]; subst.
     destruct o as [p names r| |ks]; cbn [run run_cache gens flat_map app map].
-    + destruct (generate_spec_ok w c p names r Hw Ho Hc) as [E1 E2].
+    + destruct (generate_spec_ok ok w c p names r Hw Ho Hok1 Hc) as (E1 & E2 & E3).
       destruct (generate w c p names r) as [out c'] eqn:G. cbn [fst snd] in *.
-      destruct (IH Hrest c' E2) as [R1 R2]. split; [|exact R2].
-      rewrite E1. f_equal. exact R1.
+      destruct (IH Hrest Hokr c' E3) as (R1 & R2 & R3). split; [|split; [|exact R3]].
+      * cbn [map spec_of]. rewrite E1. f_equal. exact R1.
+      * intros Hf. cbn [map spec_of]. rewrite (E2 Hf). f_equal. exact (R2 Hf).
     + apply IH; auto using cache_inv_nil.
     + apply IH; auto using cache_inv_clear.
 Qed.
 
-(* the response to a request does not depend on what happened on the cache before *)
-Lemma order_independent w ops p names r :
+Definition any_fmt : string -> N -> Prop := fun _ _ => True.
+Definition fmt_is (F : string -> N) : string -> N -> Prop := fun h f => f = F h.
+
+Lemma fmt_is_functional F : functional (fmt_is F).
+Proof. intros h f f' -> ->. reflexivity. Qed.
+
+Lemma ok_any w ops : Forall (ok_op any_fmt w) ops.
+Proof. apply Forall_forall. intros o _. destruct o; exact I. Qed.
+
+Lemma ok_fmt_is F w ops : forallb (fmt_op F w) ops = true -> Forall (ok_op (fmt_is F) w) ops.
+Proof.
+  intros H. apply Forall_forall. intros o Hin. rewrite forallb_forall in H. specialize (H o Hin).
+  destruct o as [p n r| |]; cbn; auto. cbn in H. unfold fmt_by_hash in H. apply N.eqb_eq in H. exact H.
+Qed.
+
+(* the response to a request does not depend on what happened on the cache before: always as to which
+   names are answered with whose certificate / key ... *)
+Lemma order_independent_erased w ops p names r :
   wf_world w = true -> forallb wf_op ops = true -> wf_proxy p = true ->
-  fst (generate w (run_cache w [] ops) p names r) = fst (generate w [] p names r).
+  map erase (fst (generate w (run_cache w [] ops) p names r)) = map erase (fst (generate w [] p names r)).
 Proof.
   intros Hw Hops Hp.
-  destruct (run_pointwise w ops Hw Hops [] (cache_inv_nil w)) as [_ Hc].
-  destruct (generate_spec_ok w _ p names r Hw Hp Hc) as [-> _].
-  destruct (generate_spec_ok w [] p names r Hw Hp (cache_inv_nil w)) as [-> _]. reflexivity.
+  destruct (run_pointwise any_fmt w ops Hw Hops (ok_any w ops) [] (cache_inv_nil _ w)) as (_ & _ & Hc).
+  destruct (generate_spec_ok any_fmt w _ p names r Hw Hp I Hc) as [-> _].
+  destruct (generate_spec_ok any_fmt w [] p names r Hw Hp I (cache_inv_nil _ w)) as [-> _]. reflexivity.
+Qed.
+
+(* ... and also as to where the key sits, when the key format is a function of the key's hash component *)
+Lemma order_independent_fmt F w ops p names r :
+  wf_world w = true -> forallb wf_op ops = true -> wf_proxy p = true ->
+  forallb (fmt_op F w) ops = true -> fmt_by_hash F w p = true ->
+  fst (generate w (run_cache w [] ops) p names r) = fst (generate w [] p names r).
+Proof.
+  intros Hw Hops Hp HF HFp.
+  assert (Hokp : fmt_is F (p_pkp p) (eff_fmt w p)) by (unfold fmt_by_hash in HFp; apply N.eqb_eq in HFp; exact HFp).
+  destruct (run_pointwise (fmt_is F) w ops Hw Hops (ok_fmt_is F w ops HF) [] (cache_inv_nil _ w)) as (_ & _ & Hc).
+  destruct (generate_spec_ok (fmt_is F) w _ p names r Hw Hp Hokp Hc) as (_ & E & _).
+  destruct (generate_spec_ok (fmt_is F) w [] p names r Hw Hp Hokp (cache_inv_nil _ w)) as (_ & E' & _).
+  rewrite (E (fmt_is_functional F)), (E' (fmt_is_functional F)). reflexivity.
 Qed.
 
 (* ---- entitlement *)
@@ -188,7 +257,7 @@ Proof.
   intros Hv H1 H2 H3 Hin Hk. unfold gen_spec in Hin. apply in_flat_map in Hin.
   destruct Hin as [sr [Hsr He]].
   destruct (wanted r sr); [|destruct He].
-  destruct (build w (p_cluster p) sr) as [e'|] eqn:B; [|destruct He].
+  destruct (build w (p_cluster p) (eff_fmt w p) sr) as [e'|] eqn:B; [|destruct He].
   destruct He as [<-|[]].
   unfold authorized_resources, filter_authorized in Hsr. apply filter_In in Hsr. destruct Hsr as [Hsr Hal].
   apply in_parse_resources in Hsr. destruct Hsr as [rn [_ Hp]].
@@ -233,6 +302,23 @@ Proof.
   eapply gen_spec_entitled; eauto using known_cluster_no_slash.
 Qed.
 
+Lemma key_of_erase e : key_of (erase e) = key_of e.
+Proof. destruct e as [n [s|s f]]; reflexivity. Qed.
+
+Lemma keys_entitled_erase w p out : keys_entitled w p (map erase out) = keys_entitled w p out.
+Proof.
+  unfold keys_entitled. induction out as [|e out IH]; cbn [map forallb]; [reflexivity|].
+  rewrite IH, key_of_erase. reflexivity.
+Qed.
+
+Lemma gens_wf ops : forallb wf_op ops = true ->
+  Forall (fun g => match g with (p, _, _) => wf_proxy p = true end) (gens ops).
+Proof.
+  induction ops as [|o rest IH]; cbn; [constructor|].
+  intros Hops. apply andb_true_iff in Hops. destruct Hops as [Ho Hr].
+  destruct o; cbn; auto.
+Qed.
+
 (* for every history on one shared cache, every response carries only private keys its receiver is
    entitled to *)
 Lemma no_key_without_right w ops :
@@ -240,28 +326,46 @@ Lemma no_key_without_right w ops :
   Forall2 (fun g out => match g with (p, _, _) => keys_entitled w p out = true end) (gens ops) (run w [] ops).
 Proof.
   intros Hw Hops.
-  destruct (run_pointwise w ops Hw Hops [] (cache_inv_nil w)) as [-> _].
-  assert (Hg : Forall (fun g => match g with (p, _, _) => wf_proxy p = true end) (gens ops)).
-  { clear -Hops. induction ops as [|o rest IH]; cbn; [constructor|].
-    cbn in Hops. apply andb_true_iff in Hops. destruct Hops as [Ho Hr].
-    destruct o; cbn; auto. }
-  induction Hg as [|[[p n] r] l Hp _ IH]; cbn; constructor; auto.
-  apply generate_spec_entitled; auto.
+  destruct (run_pointwise any_fmt w ops Hw Hops (ok_any w ops) [] (cache_inv_nil _ w)) as (E & _ & _).
+  pose proof (gens_wf ops Hops) as Hg.
+  revert E. generalize (run w [] ops) as outs. induction Hg as [|[[p n] r] l Hp _ IH]; intros outs E.
+  - destruct outs; [constructor|discriminate].
+  - destruct outs as [|out outs]; [discriminate|]. cbn [map] in E. injection E as E1 E2.
+    constructor; [|apply IH; exact E2].
+    rewrite <- keys_entitled_erase, E1, keys_entitled_erase. cbn [spec_of].
+    apply generate_spec_entitled; auto.
 Qed.
 
-(* and the responses of a history are, one by one, the cache-free answers *)
-Lemma run_is_pointwise w ops :
+(* the responses of a history are, one by one, the cache-free answers: up to the key format always ... *)
+Lemma run_is_pointwise_erased w ops :
   wf_world w = true -> forallb wf_op ops = true ->
-  run w [] ops = map (fun g => match g with (p, n, r) => fst (generate w [] p n r) end) (gens ops).
+  map (map erase) (run w [] ops) =
+  map (fun g => match g with (p, n, r) => map erase (fst (generate w [] p n r)) end) (gens ops).
 Proof.
   intros Hw Hops.
-  destruct (run_pointwise w ops Hw Hops [] (cache_inv_nil w)) as [-> _].
-  assert (Hg : Forall (fun g => match g with (p, _, _) => wf_proxy p = true end) (gens ops)).
-  { clear -Hops. induction ops as [|o rest IH]; cbn; [constructor|].
-    cbn in Hops. apply andb_true_iff in Hops. destruct Hops as [Ho Hr].
-    destruct o; cbn; auto. }
+  destruct (run_pointwise any_fmt w ops Hw Hops (ok_any w ops) [] (cache_inv_nil _ w)) as (-> & _ & _).
+  pose proof (gens_wf ops Hops) as Hg.
   induction Hg as [|[[p n] r] l Hp _ IH]; cbn; [reflexivity|].
-  destruct (generate_spec_ok w [] p n r Hw Hp (cache_inv_nil w)) as [-> _]. f_equal. exact IH.
+  destruct (generate_spec_ok any_fmt w [] p n r Hw Hp I (cache_inv_nil _ w)) as [-> _]. f_equal. exact IH.
+Qed.
+
+(* ... and exactly, when the key format is a function of the key's hash component *)
+Lemma run_is_pointwise_fmt F w ops :
+  wf_world w = true -> forallb wf_op ops = true -> forallb (fmt_op F w) ops = true ->
+  run w [] ops = map (fun g => match g with (p, n, r) => fst (generate w [] p n r) end) (gens ops).
+Proof.
+  intros Hw Hops HF.
+  destruct (run_pointwise (fmt_is F) w ops Hw Hops (ok_fmt_is F w ops HF) [] (cache_inv_nil _ w)) as (_ & E & _).
+  rewrite (E (fmt_is_functional F)).
+  assert (Hg : Forall (fun g => match g with (p, _, _) => wf_proxy p = true /\ fmt_by_hash F w p = true end) (gens ops)).
+  { clear E. induction ops as [|o rest IH]; cbn; [constructor|].
+    cbn in Hops, HF. apply andb_true_iff in Hops. destruct Hops as [Ho Hr].
+    apply andb_true_iff in HF. destruct HF as [Hf Hfr].
+    destruct o; cbn; auto. }
+  clear E. induction Hg as [|[[p n] r] l [Hp Hf] _ IH]; cbn; [reflexivity|].
+  assert (Hokp : fmt_is F (p_pkp p) (eff_fmt w p)) by (unfold fmt_by_hash in Hf; apply N.eqb_eq in Hf; exact Hf).
+  destruct (generate_spec_ok (fmt_is F) w [] p n r Hw Hp Hokp (cache_inv_nil _ w)) as (_ & E' & _).
+  rewrite (E' (fmt_is_functional F)). f_equal. exact IH.
 Qed.
 
 (* an unauthenticated stream gets nothing, whatever the cache holds, and leaves the cache alone *)
